@@ -21,6 +21,10 @@ let sub_of_sx (x : sx) : gsubst =
            | L [ins; out] -> (nlist ins, sx_n out)
            | _ -> failwith "bad ligature") (lst ligs))
       | _ -> failwith "bad ligature set") (lst sets))
+  | L [A ("mult" | "alt" as k); m] ->
+    Multi (k = "alt", List.map (fun e -> match e with
+      | L [g; outs] -> (sx_n g, nlist outs)
+      | _ -> failwith "bad multiple/alternate entry") (lst m))
   | _ -> failwith "bad subtable"
 
 let kern_of_sx (x : sx) = match x with L [l; r; v] -> ((sx_n l, sx_n r), sx_z v) | _ -> failwith "bad kern"
@@ -34,6 +38,8 @@ let sx_of_osub (s : osub) : sx =
   | OLig sets ->
     L [A "lig"; L (List.map (fun (f, ligs) ->
       L [az f; L (List.map (fun (ins, out) -> L [zl ins; az out]) ligs)]) sets)]
+  | OMulti (alt, m) ->
+    L [A (if alt then "alt" else "mult"); L (List.map (fun (g, outs) -> L [az g; zl outs]) m)]
 
 let sx_of_obs (o : obs) : sx =
   L [A "ok"; zl o.o_sel; zl o.o_extras;
